@@ -21,7 +21,7 @@ YOUR TASK: make a small, realistic change to src/cat.c (the kind of bug a mainta
        cmake -G Ninja -B _build -S . >/dev/null && cmake --build _build && ctest --test-dir _build -j8
 The breakage should be something a careful, systematic tester is LEAST likely to have covered. Dimensions to think about: a particular interleaving of API calls (cat_trigger_unsolicited_*, cat_hold_exit, cat_is_*, cat_search_*, cat_get_processed_command, cat_is_unsolicited_event_buffered) with cat_service, also from inside handlers and io callbacks; io read or write callbacks refusing at one particular point or for a long run, or returning unusual values; multi-step histories (state left behind by an earlier, unusual line, event, hold or failed operation, cat_init called again on a used object); unusual descriptors (several groups, many commands, name/prefix relations, registration order, handler/variable/flag/access combinations, unusual variable sizes, empty names or descriptions, NULL vs non-NULL optional fields, the same command or variable object registered twice, commands shared between groups); unusual buffer geometry; particular handler return-code sequences; particular variable VALUES (extremes, signs, embedded special characters, long texts); particular byte values or positions in the input (CR placement, NUL, high bytes, lower case, spaces); two cooperating code sites that each look fine alone. Stay inside the documented contract of the API (for example: handlers keep within the size they are told; event handlers do not return HOLD; descriptors satisfy the assertions of cat_init and have a command buffer of at least 6 bytes and at least one byte per four commands in the command part). Do not change cat.h's public API.
 
-{n} other engineers have ALREADY used the following ideas, so do NOT use them or close variants; choose something clearly different in mechanism and in code location:
+{hint}{n} other engineers have ALREADY used the following ideas, so do NOT use them or close variants; choose something clearly different in mechanism and in code location:
 {ideas}
 
 Also write a DEMONSTRATION: a small standalone C program demo.c that uses only the public API of src/cat.h, is compiled as `gcc -I src demo.c src/cat.c -o demo` (add -DCAT_UNSOLICITED_CMD_BUFFER_SIZE=<n> or -lpthread if you need them and say so), exits 0 on the ORIGINAL code and exits non-zero with a short message on the CHANGED code.
@@ -33,11 +33,13 @@ DELIVERABLES, all in the directory /tmp/wt_{id}_{sfx}/_seed/ :
 At the very end restore the source tree to its original state (`git checkout -- src`) so that patch.diff is the only carrier of the change, and remove the _build directory and any demo binary. Do not commit anything.
 
 Report back in a few lines: what you changed, what it needs to manifest, and confirmation of (a), (b), (c).'''
+# optional third argument: a sentence steering the agents towards code that no earlier seed touched
+HINT = (sys.argv[2] + "\n\n") if len(sys.argv) > 2 else ""
 for pid, p in props.items():
     ms = []
     for mp in sorted(glob.glob(os.path.join(HERE, 'seeded', pid + '*', 'meta.json'))):
         m = json.load(open(mp))
         if m.get('summary'): ms.append(m['summary'])
     ideas = "\n".join("  %d. %s" % (i + 1, t) for i, t in enumerate(ms))
-    open('/tmp/prompt_%s_%s.txt' % (pid, sfx), 'w').write(base.format(id=pid, sfx=sfx, title=p['title'], statement=p['statement'], quant=p['quantifier']['text'], n=len(ms), ideas=ideas))
+    open('/tmp/prompt_%s_%s.txt' % (pid, sfx), 'w').write(base.format(id=pid, sfx=sfx, title=p['title'], statement=p['statement'], quant=p['quantifier']['text'], n=len(ms), ideas=ideas, hint=HINT))
 print('ok')
